@@ -329,6 +329,7 @@ for n, t in [("c01_read_start", "quick"), ("c01_read_cross_cluster", "quick"), (
              ("c01_read_cross_two", "thorough"), ("c01_read_at_eof", "thorough"), ("c01_read_cursor_behind", "thorough"), ("c01_read_block_aligned", "thorough"), ("c01_read_empty_buffer", "thorough")]:
     H("C01", "vk_fsop", n, tier=t, desc=_rd, bounds="file contents (4 data clusters) fully symbolic; chain/size/offset/cursor/length concrete per instance", timeout=1200, cost=3, mem_gb=24)
 
+UW_FILE = [("find_data_on_disk", r".", 5), ("VolumeManager", r"while written < bytes_to_write|while space > 0", 5)]
 UW_WRITE = UW_ALLOC + [("vk_fsop", r"pos < 2048", 2050)]
 _wr = "VolumeManager::write: bytes in range == payload, other file bytes unchanged, length/offset, chain growth from free clusters linked after the tail, FAT frame, only FAT + own clusters written, other open file untouched, dirty set, cursor cache consistent"
 for n, t, p in [("c01_write_middle", "quick", "C01"), ("c01_write_block_start_partial", "quick", "C01"), ("c01_write_cross_end_midblock", "quick", "C01"), ("c01_write_extend_one", "thorough", "C01"),
@@ -336,7 +337,7 @@ for n, t, p in [("c01_write_middle", "quick", "C01"), ("c01_write_block_start_pa
              ("c01_write_extend_two", "thorough", "C01"), ("c01_write_backward_chain", "thorough", "C01"), ("c01_write_empty_buffer", "thorough", "C01"),
              ("c05_write_last_free_cluster", "thorough", "C05"), ("c05_write_disk_full_partial", "thorough", "C05"), ("c05_write_disk_full_none", "thorough", "C05"),
              ("c07_write_readonly_refused", "quick", "C07")]:
-    H(p, "vk_fsop", n, tier=t, desc=_wr, bounds="payload (<=600 B), old file contents and root block fully symbolic; chain/size/offset/cursor/length/free map concrete per instance; alloc_cluster replaced by the abstract allocator stub (contract = C05 allocator harnesses)", kani_args=["-Z", "stubbing"], unwindset=UW_ALLOC, timeout=2400, cost=4, mem_gb=30)
+    H(p, "vk_fsop", n, tier=t, desc=_wr, bounds="payload (<=600 B), old file contents and root block fully symbolic; chain/size/offset/cursor/length/free map concrete per instance; alloc_cluster replaced by the abstract allocator stub (contract = C05 allocator harnesses)", kani_args=["-Z", "stubbing"], unwindset=UW_ALLOC + UW_FILE, timeout=2400, cost=4, mem_gb=30)
 PROPS["C07"] = dict(bounds="(in progress)", outside="")
 
 UW_DIR = [("memcmp", r".", 12),
@@ -485,10 +486,10 @@ UW_LFN = [("iterate_fat16", r"chunks_exact", 8), ("iterate_fat16", r".", 3)]
 H("C17", "vk_fat", "c17_dir_lfn_runs", desc="iterate_dir_lfn over 5 fully symbolic directory slots (LfnBuffer ops stubbed): never crashes; a long name is reported for the k-th entry iff a complete, descending, 0x40-started fragment run with matching checksum directly precedes it", bounds="FAT16 root, slots 0-4 fully symbolic, k symbolic", kani_args=_stubfat, unwindset=UW_LFN, timeout=2400, cost=4, mem_gb=30)
 
 _gw = "VolumeManager::write extending the file, over the ghost FAT (next_cluster and alloc_cluster stubbed; contracts: c05_next_cluster_*, c05_alloc16_*): "
-for n, t, pr in [("c01_gwrite_extend_one", "quick", "C01"), ("c01_gwrite_extend_stale_cursor", "quick", "C01"), ("c01_gwrite_first_cluster", "thorough", "C01"), ("c01_gwrite_extend_two", "thorough", "C01"),
-                 ("c05_gwrite_last_free_cluster", "quick", "C05"), ("c05_gwrite_disk_full_partial", "quick", "C05"), ("c05_gwrite_disk_full_none", "thorough", "C05")]:
-    H(pr, "vk_fsop", n, tier=t, desc=_gw + _wr + "; the allocator is asked to link behind the chain's tail; DiskFull exactly when no cluster is free, with the bytes that fit written", bounds="payload and old contents symbolic; chain/size/offset/cursor/length/free map concrete per instance", kani_args=["-Z", "stubbing"], timeout=2400, cost=4, mem_gb=30)
-H("C03", "vk_fsop", "c01_gwrite_extend_stale_cursor", desc=_gw + "chain stays well formed when the cursor cache is several clusters behind the write position", bounds="see C01", kani_args=["-Z", "stubbing"], timeout=2400, cost=4, mem_gb=30)
+for n, t, pr in [("c01_gwrite_extend_one", "thorough", "C01"), ("c01_gwrite_extend_stale_cursor", "thorough", "C01"), ("c01_gwrite_first_cluster", "thorough", "C01"), ("c01_gwrite_extend_two", "thorough", "C01"),
+                 ("c05_gwrite_last_free_cluster", "thorough", "C05"), ("c05_gwrite_disk_full_partial", "thorough", "C05"), ("c05_gwrite_disk_full_none", "thorough", "C05")]:
+    H(pr, "vk_fsop", n, tier=t, desc=_gw + _wr + "; the allocator is asked to link behind the chain's tail; DiskFull exactly when no cluster is free, with the bytes that fit written", bounds="payload and old contents symbolic; chain/size/offset/cursor/length/free map concrete per instance", kani_args=["-Z", "stubbing"], unwindset=UW_FILE, timeout=2400, cost=4, mem_gb=30)
+H("C03", "vk_fsop", "c01_gwrite_extend_stale_cursor", tier="thorough", desc=_gw + "chain stays well formed when the cursor cache is several clusters behind the write position", bounds="see C01", kani_args=["-Z", "stubbing"], unwindset=UW_FILE, timeout=2400, cost=4, mem_gb=30)
 
 H("C05", "vk_fsop", "c05_delete_releases_clusters", desc="delete_file_in_dir of a closed 2-cluster file (directory functions scripted, ghost FAT): afterwards its clusters are free", bounds="chain 3->5, other clusters used", kani_args=["-Z", "stubbing"], timeout=900, cost=2, mem_gb=16)
 
@@ -496,10 +497,34 @@ H("C05", "vk_fat", "c05_free_chain_abstract_fat", desc="free_cluster_chain (dele
 H("C16", "vk_fat", "c05_free_chain_abstract_fat", desc="free-space record arithmetic of free_cluster_chain (delete)", bounds="see C05", kani_args=_stubfat, timeout=900, cost=2, mem_gb=16)
 
 for pr in ("C03", "C02", "C04"):
-    H(pr, "vk_fat", "c03_make_dir_root16", desc="make_dir in a FAT16 root: parent entry with a previously free, now end-of-chain cluster; '.' -> itself, '..' -> 0 (root), rest of the cluster zero; other entries, FAT entries and data clusters (incl. the one physically after the new directory) unchanged", bounds="other files' data and the stale free cluster fully symbolic", unwindset=UW_CRASH, timeout=1500, cost=3, mem_gb=24)
+    H(pr, "vk_fat", "c03_make_dir_root16", tier="thorough", desc="make_dir in a FAT16 root: parent entry with a previously free, now end-of-chain cluster; '.' -> itself, '..' -> 0 (root), rest of the cluster zero; other entries, FAT entries and data clusters (incl. the one physically after the new directory) unchanged", bounds="other files' data and the stale free cluster fully symbolic", unwindset=UW_CRASH, timeout=1500, cost=3, mem_gb=24)
 H("C07", "vk_vm", "c08_limits_full_tables", desc="an open refused because the table is full happens before any side effect: nothing read or written, tables unchanged (all modes)", bounds="see C08", timeout=900)
 
 UW_LOCK = [("iterate_fat16", r"chunks_exact", 4), ("iterate_fat16", r".", 3)]
 for n, t in [("c08_lock_file_queries", "quick"), ("c08_lock_close_flush", "quick"), ("c08_lock_read_write", "quick"), ("c08_lock_dir_volume_handles", "quick"),
              ("c08_lock_open_volume", "quick"), ("c08_lock_dir_listing", "quick"), ("c08_lock_dir_mutation", "quick"), ("c08_lock_make_dir", "quick")]:
     H("C08", "vk_vm", n, tier=t, desc="result-returning methods called from inside an iterate_dir callback fail with LockError and change nothing", bounds="one-entry FAT16 root; methods: see harness name", unwindset=UW_LOCK, timeout=1800, cost=3, mem_gb=24)
+
+# ---------------------------------------------------------------------------
+# final texts, second pass (harnesses over stubbed internal interfaces added)
+# ---------------------------------------------------------------------------
+_st = " Harnesses marked 'abstract' replace internal storage functions by #[kani::stub] ghost models (DESIGN.md 2.2); the stub contracts are decided by the named storage harnesses and the composition is an argument."
+PROPS["C03"]["bounds"] += "; abstract: find_directory_entry's walk over any chain of 1..3 clusters (1-2 blocks/cluster) with a symbolic per-block script (both FAT types); make_dir functional post-state (thorough)"
+PROPS["C03"]["outside"] += ";" + _st
+PROPS["C05"]["bounds"] += "; abstract (ghost FAT): free_cluster_chain for every well-formed chain over 4 clusters; delete_file_in_dir releases the clusters (directory functions scripted)"
+PROPS["C05"]["outside"] = "write() at disk full and fill/refill cycles through the public API (extending-write harnesses are thorough and do not finish: the Ok/EndOfFile merge in write() makes the copy length symbolic); FAT sectors beyond the first;" + _st
+PROPS["C06"]["bounds"] += "; abstract: the cluster/block walk of find_directory_entry for any chain of 1..3 clusters, 1-2 blocks per cluster, both FAT types, symbolic per-block answers (hit / miss / error)"
+PROPS["C06"]["outside"] += ";" + _st
+PROPS["C08"]["bounds"] += "; lock: all 22 result-returning public methods called from an iterate_dir callback (8 groups)"
+PROPS["C08"]["outside"] = PROPS["C08"]["outside"].replace("; the re-entrancy lock clause is not decided (every call inside the callback re-explores the whole API body; see DESIGN)", "")
+PROPS["C10"]["bounds"] += "; abstract (ghost FAT + update log): every prefix of truncate_cluster_chain's FAT updates for every well-formed chain; alloc_cluster's update order (new cluster EOC before the tail is linked)"
+PROPS["C10"]["outside"] += ";" + _st
+PROPS["C09"]["bounds"] += "; alloc_cluster's FAT update order; file_is_open identifies an open file by volume + slot whatever its unflushed in-memory entry holds; directory growth (alloc zero=true) touches only the FAT and the new cluster"
+PROPS["C16"]["bounds"] += "; abstract (ghost FAT): free-space record after truncate_cluster_chain and free_cluster_chain for every well-formed chain and every (stale, out-of-range) record value"
+PROPS["C16"]["outside"] = "record arithmetic of alloc_cluster (saturating decrement; only totality of the alloc instances); 'since mount' accounting over histories;" + _st
+PROPS["C17"]["bounds"] += "; listing level (abstract: LfnBuffer ops stubbed): iterate_dir_lfn over 5 fully symbolic directory slots against a spec-side run tracker (complete, descending, 0x40-started run with matching checksum directly before the entry)"
+PROPS["C17"]["outside"] = PROPS["C17"]["outside"] + "; directories with more than 5 non-empty slots at the listing level;" + _st
+PROPS["C07"]["bounds"] += "; file_is_open identity on a fully symbolic on-disk entry; limit refusals happen before any side effect (C08 harness)"
+PROPS["C12"]["bounds"] += "; response delay of exactly N_CR = 8 bytes"
+PROPS["C13"]["bounds"] += "; identification failing at CMD58 with any R1 error bits; 2-block read with a CRC mismatch in the first block (thorough)"
+PROPS["C14"]["bounds"] += "; commands (and the CMD55 prefix) issued while the card is still busy from a previous operation"
